@@ -41,9 +41,7 @@ Record shape := mkShape {
   sh_closewrite : bool;      (* copier.copy: closeWriter(dst) after io.CopyBuffer, before signalling done *)
   sh_wait_all : bool;        (* bicopy receives from donec once per copier before returning *)
   sh_close_up : bool;        (* the dialled connection is closed when the tunnel returns (defer crw.Close / res.Body.Close) *)
-  sh_close_down : bool;      (* the client connection is closed when the tunnel returns (errClose, defer conn.Close) *)
-  sh_clears_deadline : bool; (* tunnel(): the request's read deadline is cleared before the copiers start *)
-  sh_clears_wdeadline : bool (* writeResponse: the write deadline armed for the reply head is cleared again *)
+  sh_close_down : bool       (* the client connection is closed when the tunnel returns (errClose, defer conn.Close) *)
 }.
 
 Record dstate := mkD {
@@ -144,25 +142,30 @@ Definition dstepb (sh : shape) (ok brk : bool) (x : dstate) (a : act) : option d
 (* ---- whole tunnel ---- *)
 Record state := mkS {
   s_replied : bool; s_ct : dstate; s_tc : dstate; s_clock : Z; s_first : option Z;
-  s_forced : bool; s_up : bool; s_down : bool
+  s_forced : bool; s_up : bool; s_down : bool;
+  s_rdl : option Z;   (* read deadline armed on the client connection (absolute, ns), None = none *)
+  s_wdl : option Z    (* write deadline armed on the client connection *)
 }.
 
 Definition get (d : dir) (s : state) : dstate := match d with CT => s_ct s | TC => s_tc s end.
 Definition set (d : dir) (s : state) (x : dstate) : state :=
   match d with
-  | CT => mkS (s_replied s) x (s_tc s) (s_clock s) (s_first s) (s_forced s) (s_up s) (s_down s)
-  | TC => mkS (s_replied s) (s_ct s) x (s_clock s) (s_first s) (s_forced s) (s_up s) (s_down s)
+  | CT => mkS (s_replied s) x (s_tc s) (s_clock s) (s_first s) (s_forced s) (s_up s) (s_down s) (s_rdl s) (s_wdl s)
+  | TC => mkS (s_replied s) (s_ct s) x (s_clock s) (s_first s) (s_forced s) (s_up s) (s_down s) (s_rdl s) (s_wdl s)
   end.
 Definition closed (sd : side) (s : state) : bool := match sd with Up => s_up s | Down => s_down s end.
 
 Definition can_copy (sh : shape) (s : state) : bool :=
   s_replied s && (negb (sh_drain_first sh) || is_nil (d_pre (s_ct s))).
 Definition any_closed (s : state) : bool := s_up s || s_down s.
-(* can a Read/Write of copier d fail: a connection of the tunnel has been closed, or a
-   deadline is still armed on the client connection — the request's read deadline
-   (copier CT reads from it), the reply's write deadline (copier TC writes to it) *)
+(* a deadline armed on the client connection has passed *)
+Definition expired (dl : option Z) (now : Z) : bool := match dl with Some t => (t <=? now)%Z | None => false end.
+(* can a Read/Write of copier d fail: a connection of the tunnel has been closed, or a deadline
+   armed on the client connection has passed — copier CT reads from it (read deadline), copier TC
+   writes to it (write deadline).  Nothing in the tunnel phase arms or clears a deadline
+   (Tables.v: no deadline statement in copy.go), so s_rdl / s_wdl are what the switch-over left. *)
 Definition may_break (sh : shape) (s : state) (d : dir) : bool :=
-  any_closed s || (negb (sh_clears_deadline sh) && dir_eqb d CT) || (negb (sh_clears_wdeadline sh) && dir_eqb d TC).
+  any_closed s || match d with CT => expired (s_rdl s) (s_clock s) | TC => expired (s_wdl s) (s_clock s) end.
 Definition is_done (x : dstate) : bool := cop_eqb (d_cop x) Done.
 Definition both_done (s : state) : bool := is_done (s_ct s) && is_done (s_tc s).
 Definition some_done (s : state) : bool := is_done (s_ct s) || is_done (s_tc s).
@@ -174,24 +177,24 @@ Definition grace_over (sh : shape) (s : state) : bool :=
   match s_first s with Some t0 => (t0 + sh_grace sh <=? s_clock s)%Z | None => false end.
 
 Definition tick (s : state) (dt : Z) : state :=
-  mkS (s_replied s) (s_ct s) (s_tc s) (s_clock s + dt)%Z (s_first s) (s_forced s) (s_up s) (s_down s).
+  mkS (s_replied s) (s_ct s) (s_tc s) (s_clock s + dt)%Z (s_first s) (s_forced s) (s_up s) (s_down s) (s_rdl s) (s_wdl s).
 Definition reply (s : state) : state :=
-  mkS true (s_ct s) (s_tc s) (s_clock s) (s_first s) (s_forced s) (s_up s) (s_down s).
+  mkS true (s_ct s) (s_tc s) (s_clock s) (s_first s) (s_forced s) (s_up s) (s_down s) (s_rdl s) (s_wdl s).
 Definition drain (sh : shape) (s : state) : state :=
-  mkS (s_replied s) (upd_drain sh (s_ct s)) (s_tc s) (s_clock s) (s_first s) (s_forced s) (s_up s) (s_down s).
+  mkS (s_replied s) (upd_drain sh (s_ct s)) (s_tc s) (s_clock s) (s_first s) (s_forced s) (s_up s) (s_down s) (s_rdl s) (s_wdl s).
 (* Close of a connection: its peer sees end-of-stream (or a reset); when the
    copiers are not both done this is the forced close after the grace period. *)
 Definition close_side (s : state) (sd : side) : state :=
   match sd with
   | Up => mkS (s_replied s) (upd_sink_eof (s_ct s)) (s_tc s) (s_clock s) (s_first s)
-              (s_forced s || negb (both_done s)) true (s_down s)
+              (s_forced s || negb (both_done s)) true (s_down s) (s_rdl s) (s_wdl s)
   | Down => mkS (s_replied s) (s_ct s) (upd_sink_eof (s_tc s)) (s_clock s) (s_first s)
-              (s_forced s || negb (both_done s)) (s_up s) true
+              (s_forced s || negb (both_done s)) (s_up s) true (s_rdl s) (s_wdl s)
   end.
 (* the first copier to finish arms the grace timer *)
 Definition note_done (a : act) (s : state) : state :=
   match a, s_first s with
-  | CloseWrite, None => mkS (s_replied s) (s_ct s) (s_tc s) (s_clock s) (Some (s_clock s)) (s_forced s) (s_up s) (s_down s)
+  | CloseWrite, None => mkS (s_replied s) (s_ct s) (s_tc s) (s_clock s) (Some (s_clock s)) (s_forced s) (s_up s) (s_down s) (s_rdl s) (s_wdl s)
   | _, _ => s
   end.
 
@@ -244,14 +247,14 @@ Fixpoint refused_at (sh : shape) (s : state) (tr : list label) (i : N) : option 
    reader; o = bytes of the far endpoint consumed by the reply reader beyond the
    reply head (dropped); k = bytes of the far endpoint that net/http's transport
    had buffered when it handed the 101 body over (read first by the copier). *)
-Definition init (e o k : list N) : state :=
+Definition init (e o k : list N) (rdl wdl : option Z) : state :=
   mkS false
       (mkD [] e [] false Idle [] [] false e false)
       (mkD o [] k false Idle [] [] false (o ++ k) false)
-      0%Z None false false false.
+      0%Z None false false false rdl wdl.
 
-Definition accepts (sh : shape) (e o k : list N) (tr : list label) : bool :=
-  match run sh (init e o k) tr with Some _ => true | None => false end.
+Definition accepts (sh : shape) (e o k : list N) (rdl wdl : option Z) (tr : list label) : bool :=
+  match run sh (init e o k rdl wdl) tr with Some _ => true | None => false end.
 
 (* labels of the environment (endpoints, time); everything else is the proxy's *)
 Definition is_env (l : label) : bool :=
@@ -259,9 +262,8 @@ Definition is_env (l : label) : bool :=
 
 Definition shape_ok (sh : shape) : Prop :=
   sh_drain_first sh = true /\ sh_drain_rereads sh = false /\ sh_closewrite sh = true /\
-  sh_wait_all sh = true /\ 0 < sh_bufsz sh /\ (0 <= sh_grace sh)%Z /\ sh_close_up sh = true /\ sh_close_down sh = true /\
-  sh_clears_deadline sh = true /\ sh_clears_wdeadline sh = true.
+  sh_wait_all sh = true /\ 0 < sh_bufsz sh /\ (0 <= sh_grace sh)%Z /\ sh_close_up sh = true /\ sh_close_down sh = true.
 
 Definition shape_okb (sh : shape) : bool :=
   sh_drain_first sh && negb (sh_drain_rereads sh) && sh_closewrite sh && sh_wait_all sh &&
-  (0 <? sh_bufsz sh) && (0 <=? sh_grace sh)%Z && sh_close_up sh && sh_close_down sh && sh_clears_deadline sh && sh_clears_wdeadline sh.
+  (0 <? sh_bufsz sh) && (0 <=? sh_grace sh)%Z && sh_close_up sh && sh_close_down sh.
